@@ -197,6 +197,8 @@ def _periodic_inputs(rng, with_delim=True):
     plen = rng.choice([1, 2, 3, 8, 8, 16, 16, 24, len(unit), 2 * len(unit)])
     start = rng.randrange(len(data)) if data else 0
     pat = (data[start:start + plen] if rng.random() < 0.8 else [rng.random() < 0.5 for _ in range(plen)]) or [True]
+    if rng.random() < 0.04:
+        pat = []                     # the empty pattern: ValueError for find, rfind, findall, in, split, replace
     return data, pat
 
 
